@@ -300,6 +300,36 @@ class _NetMayRaise(MayRaise):
         return out
 
 
+def dominated_by_not_done(p, origin) -> bool:
+    """The raising set_result/set_exception is preceded on the path by `<same future>.done()` tested False
+    with nothing completing the future in between."""
+    fut = (call_chain(origin) or ())[:-1]
+    idx = None
+    for i, ev in enumerate(p.events):
+        if ev.kind == "raise" and ev.node is origin:
+            idx = i
+    if idx is None:
+        return False
+    for k in range(idx - 1, -1, -1):
+        ev = p.events[k]
+        if ev.kind == "test" and isinstance(ev.node, ast.Call) and (call_chain(ev.node) or ())[-1:] == ("done",) \
+                and (call_chain(ev.node) or ())[:-1] == fut:
+            return ev.data is False
+        t = tags(ev)
+        if t & {"fut_set_result", "fut_set_exception", "fut_cancel", "close_transport", "await"}:
+            return False
+    return False
+
+
+
+def _ise_feasible(ctx: Ctx, p: Path) -> bool:
+    ise = ctx.prog.ext_class("asyncio.InvalidStateError")
+    for ev in p.events:
+        if ev.kind == "raise" and ev.data is ise and isinstance(ev.node, ast.Call) and dominated_by_not_done(p, ev.node):
+            return False
+    return True
+
+
 def protocol_paths(ctx: Ctx, fn: FuncInfo) -> List[Path]:
     """Feasible paths of a protocol function under the network oracle."""
     key = "ppaths:" + fn.qualname
@@ -308,7 +338,7 @@ def protocol_paths(ctx: Ctx, fn: FuncInfo) -> List[Path]:
         extra = _callback_oracle(ctx)
         def oracle(node, f):
             return list(dict.fromkeys(list(mr.oracle(node, f)) + list(extra(node, f))))
-        return [p for p in enumerate_paths(ctx.prog, fn, oracle) if feasible(p)]
+        return [p for p in enumerate_paths(ctx.prog, fn, oracle) if feasible(p) and _ise_feasible(ctx, p)]
     return ctx.memo(key, build)
 
 
